@@ -176,3 +176,15 @@ Proof.
     destruct (Hreg s i Hs Hi ltac:(lia)). lia. }
   pose proof (K (c_pos c) ltac:(lia)). pose proof (K (c_end c - 1) ltac:(lia)). lia.
 Qed.
+
+(* the same for an arbitrary set R of positions (several rewritten declarations) *)
+Theorem outside_changed_set_survives steps cs c (R : Z -> Prop) :
+  In c cs ->
+  (forall s p, In s steps -> covers (fst s) p -> R p) ->
+  (exists p, c_pos c <= p < c_end c /\ ~ R p) ->
+  In c (run_steps steps cs).
+Proof.
+  intros Hin HR [p [Hp Hn]]. apply run_steps_In. split; [exact Hin|]. intros s Hs Hr.
+  assert (c_pos c < c_end c) as Hne by lia.
+  destruct (removable_covered _ _ _ Hr Hne p Hp) as [C _]. apply Hn. eapply HR; eauto.
+Qed.
